@@ -1,8 +1,9 @@
-package diff
+package cv
 
 import (
 	"fmt"
 	"math/rand"
+	"regexp"
 	"strings"
 	"testing"
 
@@ -379,17 +380,23 @@ func c09Observe(c c09Case, e host.Engine) c09Obs {
 			o.SInner = take()
 		}
 		if o.C == "true" {
-			a, b := take(), take()
+			// A cast converts the authorization of references and capabilities to the target's (entitlements are never
+			// kept beyond the static type: deliberate, see C06), so authorizations are not part of "the original value" here.
+			a, b := stripAuth(take()), stripAuth(take())
 			o.Same = fmt.Sprint(a == b)
-			o.VType, o.BackType = take(), take()
+			o.VType, o.BackType = stripAuth(take()), stripAuth(take())
 			if c.Opt > 0 && !c.Nil {
-				o.InnerType = take()
+				o.InnerType = stripAuth(take())
 			}
 		}
 	}
 	o.Forced = len(logs) > 0 && logs[len(logs)-1] == `"forced"`
 	return o
 }
+
+var authRe = regexp.MustCompile(`auth\([^)]*\) `)
+
+func stripAuth(s string) string { return authRe.ReplaceAllString(s, "") }
 
 func targetKeepsOptionals(t string) bool {
 	u := strings.TrimRight(strings.TrimPrefix(t, "@"), "?")
